@@ -62,7 +62,7 @@ class C18(vlib.Spec):
     model_vo = ["theories/Partition/WF.vo", "theories/Partition/Full.vo", "theories/Gen/OpsTable.vo"]
     props_vo = "theories/Props/C18.vo"
     theorems = ["C18_WellFormed_b_sound_partial", "C18_checker_rejects_misordered_reference",
-                "C18_W1_all_graphs_partial", "C18_W2_all_graphs_partial", "C18_W5_all_graphs_partial", "C18_W4_edges_all_graphs_partial",
+                "C18_W1_all_graphs_partial", "C18_W2_all_graphs_partial", "C18_W5_all_graphs_partial", "C18_W4_edges_all_graphs_partial", "C18_user_handoff_separates_partial",
                 "C18_progress_loop_total_partial"]
     crate, group, binary = "h_partition", "dfir", "h_partition"
     imports = ("From Coq Require Import List String NArith.\n"
